@@ -141,3 +141,6 @@ func (s *Store) GeneratePoisonKeyPair() error { return ErrNoKey }
 
 // GeneratePoisonSymmetricKey is not supported: harnesses provide poison keys explicitly.
 func (s *Store) GeneratePoisonSymmetricKey() error { return ErrNoKey }
+
+// CacheOnStart completes keystore.TranslationKeyStore.
+func (s *Store) CacheOnStart() error { return nil }
